@@ -213,7 +213,10 @@ pub fn run(ctx: &mut Ctx) {
     let pools = crate::docprops::name_pools();
     let n_rand = if ctx.thorough { 40000 } else { 2500 };
     for i in 0..n_rand {
-        let (names, attrs): (Vec<String>, Vec<String>) = if i % 2 == 0 {
+        let (names, attrs): (Vec<String>, Vec<String>) = if i % 8 == 3 {
+            // a separator inside a name against the same string split over two levels
+            (sv(&["a.b", "a", "b.c", "c", "b"]), sv(&["x", "y"]))
+        } else if i % 2 == 0 {
             (sv(&["a", "b", "c"]), sv(&["x", "y"]))
         } else if i % 4 == 1 {
             crate::docprops::rand_pool(&mut rng)
